@@ -169,6 +169,9 @@ func c08(args []string) int {
 		c08Cfg{"enable-all-go1.13", []string{"-enableAll", "-go=1.13"}, []string{"-enable-all", "-go=1.13"}},
 		c08Cfg{"enable-all-go1.18", []string{"-enableAll", "-go=go1.18"}, []string{"-enable-all", "-go=go1.18"}},
 	)
+	for _, d := range []string{"#performance,underef", "#style", "assignOp,#experimental,#opinionated"} {
+		cfgs = append(cfgs, c08Cfg{"enable-all,disable=" + d, []string{"-enableAll", "-disable=" + d}, []string{"-enable-all", "-disable=" + d}})
+	}
 	lists := [][2]string{{"hugeParam,underef,captLocal,ifElseChain", "#performance"}, {"underef,ifElseChain,hugeParam", "#style"}, {"#diagnostic,underef", "#style,#experimental"}, {"#diagnostic", ""}, {"#style", "#experimental"}, {"#performance", ""}, {"#diagnostic,#style,#performance", "#opinionated"},
 		{"assignOp,hugeParam,ifElseChain,underef", ""}, {"#style,hugeParam", "assignOp"}, {"commentFormatting,captLocal,dupSubExpr", ""}, {"#experimental", "#performance"}}
 	for _, l := range lists {
@@ -192,7 +195,7 @@ func c08(args []string) int {
 	wsNames := []string{"single", "intests", "exttests", "three", "files", "samenames"}
 	for _, wsn := range wsNames {
 		for ci, c := range cfgs {
-			if tier == "quick" && wsn != "three" && wsn != "exttests" && wsn != "samenames" && ci >= 6 && ci%3 != 0 {
+			if tier == "quick" && wsn != "three" && wsn != "exttests" && wsn != "samenames" && ci >= 9 && ci%3 != 0 {
 				continue
 			}
 			for _, fe := range fes {
